@@ -1784,10 +1784,14 @@ func (t *tScreen) collectEventsFromInput(buf *bytes.Buffer, expire bool) []Event
 			partials++
 		}
 
-		if part, comp := t.parseFocus(buf, &res); comp {
-			continue
-		} else if part {
-			partials++
+		// a focus report can be the start of a key sequence (rxvt: ESC [ O a):
+		// while that key may still complete, the shorter report must not win
+		if partials == 0 || expire {
+			if part, comp := t.parseFocus(buf, &res); comp {
+				continue
+			} else if part {
+				partials++
+			}
 		}
 
 		// Only parse mouse records if this term claims to have
